@@ -94,8 +94,8 @@ func Run(r *ev.Run, replay string) {
 	if err := ev.ReadJSON(ev.Root+"/witnesses/C03.json", &wit); err != nil {
 		r.Inconclusive("witnesses/C03.json: " + err.Error())
 	}
-	nRanges := r.N(2500, 3000)
-	shards := r.N(1, 12)
+	nRanges := r.N(2500, 4000)
+	shards := r.N(1, 24)
 	modes := map[string]string{}
 	var wg sync.WaitGroup
 	sem := make(chan struct{}, 12)
